@@ -254,6 +254,70 @@ func vhC05(engine int, route int, short int) {
 			}
 			return a1 != nil && math.Float64bits(*a1) == math.Float64bits(f64)
 		}
+	case 9: // Wide(p0 int16, p1 int32, p2 uint8, p3 uint16, p4 uint32, p5 uint64, p6 *bool, p7 []int, p8 *Color, p9 ID): one parameter varies
+		ints := []string{"0", "-1", "127", "128", "255", "256", "-129", "32767", "32768", "-32769", "65535", "65536", "2147483647", "2147483648", "-2147483649",
+			"4294967295", "4294967296", "18446744073709551615", "18446744073709551616", "abc", "", "1.0", "+5", "0x10", " 7"}
+		bools := []string{"true", "false", "1", "0", "T", "yes", "", "TRUE", "tRuE"}
+		which := symxChoice("which", 8)
+		text := ""
+		present := true
+		for k := 0; k < 10; k++ {
+			key := "p" + string(rune('0'+k))
+			if k != which {
+				switch k {
+				case 6, 8:
+				case 9:
+					req.Query = append(req.Query, greq.KV{key, "x"})
+				default:
+					req.Query = append(req.Query, greq.KV{key, "1"})
+				}
+				continue
+			}
+			cands := ints
+			if k == 6 {
+				cands = bools
+			}
+			c := symxChoice("value", len(cands)+1)
+			if c == len(cands) {
+				present = false
+				continue
+			}
+			text = cands[c]
+			req.Query = append(req.Query, greq.KV{key, text})
+		}
+		// reference: strconv's verdict for the declared width (base 10)
+		var want any
+		switch which {
+		case 0, 1:
+			bits := []int{16, 32}[which]
+			v, err := strconv.ParseInt(text, 10, bits)
+			ok = present && err == nil
+			if which == 0 {
+				want = int16(v)
+			} else {
+				want = int32(v)
+			}
+		case 2, 3, 4, 5:
+			bits := []int{8, 16, 32, 64}[which-2]
+			v, err := strconv.ParseUint(text, 10, bits)
+			ok = present && err == nil
+			want = []any{uint8(v), uint16(v), uint32(v), v}[which-2]
+		case 6:
+			v, err := strconv.ParseBool(text)
+			ok = !present || err == nil
+			if present {
+				want = &v
+			} else {
+				want = (*bool)(nil)
+			}
+		case 7:
+			v, err := strconv.ParseInt(text, 10, 64)
+			ok = present && err == nil // a slice is not a pointer: the parameter is required
+			want = []int{int(v)}
+		}
+		check = func(args []any) bool {
+			return len(args) == 10 && vhSameArg(want, args[which])
+		}
 	default:
 		symxAssume(false)
 	}
@@ -281,6 +345,10 @@ func vhC05All(engine int, short int) {
 
 // floating point parameters (concrete candidate texts; the widths are what is checked)
 func vh_C05_floats_Q() { vhC05(symxChoice("engine", 5), 8, 0) }
+
+// sized integers, *bool and []int (one parameter varies over concrete candidate texts; strconv's verdict for the
+// declared width is the reference)
+func vh_C05_wide_Q() { vhC05(symxChoice("engine", 5), 9, 0) }
 
 func vh_C05_gin_Q()   { vhC05All(0, 2) }
 func vh_C05_echo_Q()  { vhC05All(1, 2) }
